@@ -107,7 +107,7 @@ def main():
         "hooks": {
             "guard": "o2o_verif",
             "enable": "none needed: o2o_impl::expand::derive is a pub fn of an ordinary library crate; checks link /repo/o2o-impl as a path dependency (RUSTFLAGS --cfg o2o_verif is reserved and currently guards no code)",
-            "baseline_off_cmd": "cd /repo && cargo test --workspace --no-fail-fast --offline",
+            "baseline_off_cmd": "cd /repo && cargo nextest run --workspace --no-fail-fast --offline",
             "source_commits": [],
             "add_only": True,
         },
